@@ -191,7 +191,8 @@ class _Acc:
         for sig, (det, cnt, ratio) in sorted(self.viol.items()):
             fam, n, sel = self.job
             detail = "%s n=%d sel=%s: %d failing case(s); worst err/tol=%.3g; %s" % (fam, n, sel, cnt, ratio, det)
-            out.append((sig, detail, {"fam": fam, "n": n, "sel": sel, "quick": bool(quick), "seed": int(seed), "sig": sig}))
+            out.append((sig, detail, {"fam": fam, "n": n, "sel": sel, "quick": bool(quick), "seed": int(seed), "sig": sig,
+                                      "failing_cases": int(cnt)}))
         return out
 
 
@@ -567,7 +568,9 @@ def run(ctx):
         "evaluations_by_check": counts,
         "max_err_over_tol": max(margin.values()) if margin else 0.0,
         "max_err_over_tol_by_check_regular_class": {k: round(v, 4) for k, v in sorted(margin.items())},
-        "max_err_over_tol_by_check_all_classes": {k: (round(v, 4) if np.isfinite(v) else repr(v)) for k, v in sorted(margin_all.items())},
+        # includes the violating (known-finding) cases; capped at 1e6 (F3 rotates memory it races on: its garbage varies)
+        "max_err_over_tol_by_check_all_classes": {k: (round(min(v, 1e6), 4) if np.isfinite(v) else repr(v))
+                                                  for k, v in sorted(margin_all.items())},
         "frames_by_oracle_class": cls_count,
         "parallel_flag_bit_identical": bit[0], "parallel_flag_compared": bit[1],
         "kernel_unconverged_rotation_messages": int(unconv),
@@ -584,9 +587,11 @@ def replay(ctx, rep):
     args = (rep["fam"], int(rep["n"]), rep["sel"], bool(rep["quick"]), int(rep["seed"]), ctx.scratch)
     a = _job(args)
     b = _job(args)
-    ra = [(s, d) for s, d, _ in a["records"]]
-    rb = [(s, d) for s, d, _ in b["records"]]
-    for s, d in ra:
+    # observation = which signatures fail and on how many cases (the worst-case detail of md.rmsf|reference+atom_indices
+    # is not compared: that defect rotates memory several threads write to, its garbage differs from run to run)
+    ra = [(s, r["failing_cases"]) for s, d, r in a["records"]]
+    rb = [(s, r["failing_cases"]) for s, d, r in b["records"]]
+    for s, d, _ in a["records"]:
         print("replay:", s, "::", d[:300])
-    assert ra == rb, "replay is not deterministic"
+    assert ra == rb, "replay is not deterministic: %r vs %r" % (ra, rb)
     return rep["sig"] not in [s for s, _ in ra]
